@@ -3,6 +3,8 @@
    INPUT   cfg(21) [header extension]  nacts act*         (cfg, pod, metric, node as in Codec.v)
      act : 1 t node again | 2 t node | 3 t now pod | 13 t now pod(extended)
          | 4 t node metric | 5 t uid | 6 t | 8 t node(17) pod | 18 t node(17) pod(extended)
+         | 7 t2 uid t now pod | 17 … pod(extended)   t2's DeletePod and t's AddOrUpdatePod, both past
+           the unlocked deleted pre-check, queue for the same nodeInfo lock (delete first)
    OBSERVABLE  per action:  result, then for node 1..3
         0                                                       (no entry in the map)
       | 1 deleted locked hasMetric k uid*k [ sums(8) fresh(8) ]  (bracket iff hasMetric = 1)
@@ -33,6 +35,10 @@ Definition dec_act (l : list Z) : act * list Z :=
     else if code =? 5 then
       match r with uid :: r1 => (ADelPod t uid, r1) | [] => (ALoad 0 0, []) end
     else if code =? 6 then (ADelMetric t, r)
+    else if code =? 7 then
+      (* 7 t2 uid t now pod : t2's DeletePod and t's AddOrUpdatePod queue for the same lock *)
+      match r with uid :: t1 :: now :: r1 => let '(p, r2) := dpod r1 in (ARace t uid t1 now p, r2)
+                 | _ => (ALoad 0 0, []) end
     else
       let '(nd, r1) := dec_node r in
       let '(p, r2) := dpod r1 in (AFilter t nd p, r2)
@@ -83,6 +89,7 @@ Definition act_tid (a : act) : Z :=
   match a with
   | AGetOrCreate t _ _ | ALoad t _ | AAddPod t _ _ | AAddMetric t _ | ADelPod t _ | ADelMetric t
   | AFilter t _ _ => t
+  | ARace _ _ t _ _ => t
   end.
 Definition is_add (a : act) : bool :=
   match a with AAddPod _ _ _ | AAddMetric _ _ => true | _ => false end.
